@@ -205,7 +205,9 @@ class Ctx:
         mine = [v for v in self.violations]
         if mine:
             os.makedirs(os.path.join(VERIF, "replay"), exist_ok=True)
-            path = os.path.join(VERIF, "replay", "%s-%s-%d.json" % (self.pid, self.tier, self.seed))
+            rdir = os.path.join(VERIF, "replay") if "VERIF_REPO" not in os.environ else os.path.join(tempfile.gettempdir(), "verif_scratch_replay")
+            os.makedirs(rdir, exist_ok=True)
+            path = os.path.join(rdir, "%s-%s-%d.json" % (self.pid, self.tier, self.seed))
             with open(path, "w") as f:
                 json.dump({"property": self.pid, "tier": self.tier, "seed": self.seed,
                            "count": len(mine), "cases": mine[:200]}, f, indent=1)
@@ -239,8 +241,12 @@ class Ctx:
             "coverage": cov, "assumptions": self.assumptions, "wall_s": round(wall, 2),
             "violations": len(mine),
         }
-        os.makedirs(os.path.join(VERIF, "evidence"), exist_ok=True)
-        with open(os.path.join(VERIF, "evidence", self.pid + ".json"), "w") as f:
+        # evidence under /verif/evidence always describes /repo itself; experiments against a scratch tree
+        # (VERIF_REPO=...) write theirs to a scratch directory instead
+        evdir = os.path.join(VERIF, "evidence") if "VERIF_REPO" not in os.environ else os.path.join(
+            tempfile.gettempdir(), "verif_scratch_evidence")
+        os.makedirs(evdir, exist_ok=True)
+        with open(os.path.join(evdir, self.pid + ".json"), "w") as f:
             json.dump(evd, f, indent=1)
         print("%s %s: states=%d transitions=%d events_validated=%d evaluations=%d distinct=%d drift=%d known=%d violations=%d wall=%.1fs" % (
             self.pid, self.tier, self.states, self.transitions, self.validated, self.evaluations,
